@@ -1233,9 +1233,6 @@ EXTRA = {
         ('evaluation rewrites the formula text', m_replace('evaluator.py', "        cell.value = value\n        cell.need_update = False", "        cell.value = value\n        cell.formula.formula = str(value)\n        cell.need_update = False")),
         ('ABS consults id()', m_replace('math.py', "    return abs(number)\n", "    return abs(number) if id(number) % 2 == 0 else abs(number)\n")),
     ],
-    'C07': [
-        ('flatten swallows Excel errors', m_replace('xl.py', "        else:\n            flat.append(value)\n    return flat", "        else:\n            try:\n                flat.append(func_xltypes.Number.cast(value))\n            except xlerrors.ExcelError:\n                pass\n    return flat")),
-    ],
     'C08': [
         ('Boolean has no number conversion', m_replace('func_xltypes.py', "    def __number__(self):\n        return int(self.value)\n", "    def __number__(self):\n        raise NotImplementedError\n")),
     ],
@@ -1249,6 +1246,7 @@ EXTRA = {
         ('extracted model is not compiled', m_replace('model.py', "        extracted_model.build_code()\n\n        return extracted_model", "        return extracted_model")),
     ],
     'C14': [
+        ('flatten converts items and swallows what fails', m_replace('xl.py', "        else:\n            flat.append(value)\n    return flat", "        else:\n            try:\n                flat.append(func_xltypes.Number.cast(value))\n            except xlerrors.ExcelError:\n                pass\n    return flat")),
         ('AVERAGE without the empty guard', m_replace('statistics.py', "    if len(numbers) < 1:\n        return 0\n\n    return sum(numbers) / len(numbers)", "    return sum(numbers) / len(numbers)")),
     ],
     'C15': [
